@@ -127,6 +127,14 @@ theorem C20_deadlock_free {s : State} (h : Reachable s) (t : Tid) (hp : s.prog t
         · exact ⟨_, rfl⟩
         · exact ⟨_, rfl⟩
 
+/-- C20, freezing does not matter: `Freeze` — which Starlark applies to a module-level cache before any target body
+runs — leaves the state as it is, so every theorem above holds for frozen caches exactly as for fresh ones: a frozen
+cache still stores what it computes, later callers still get that value without recomputing. (The abstraction rests on
+`(*cache).Freeze` being a no-op and on the struct having no further state: `freeze_is_noop_ok`, `cache_fields_ok`.) -/
+theorem C20_freeze_irrelevant (s : State) :
+    freeze s = s ∧ (Reachable s → Reachable (freeze s)) ∧ (∀ t, next (freeze s) t = next s t) :=
+  ⟨rfl, id, fun _ => rfl⟩
+
 /-! ## Non-vacuity: concrete reachable states exhibiting the hypotheses -/
 
 /-- three callers: thread 0 fails for key 0 and retries with 5, thread 1 asks key 0 with 7, thread 2 key 1 failing -/
